@@ -17,6 +17,7 @@ def multi_process(res, tier, nproc, seed):
     n_lines = len(ref)
     diffs = []
     second = [l for l in ref if l.endswith("SECOND-CALL-DIFFERS")]
+    order = [l for l in ref if l.endswith("WORD-ORDER-DIFFERS")]
     for k, (rc, out, err, _) in enumerate(outs[1:], 1):
         lines = out.splitlines()
         if rc != 0 or len(lines) != n_lines:
@@ -26,7 +27,7 @@ def multi_process(res, tier, nproc, seed):
             if a != b:
                 diffs.append({"process_0": a[:300], f"process_{k}": b[:300]})
                 break
-    return n_lines, diffs, second
+    return n_lines, diffs, second, order
 
 
 def check(res, thorough):
@@ -41,14 +42,16 @@ def check(res, thorough):
             res.coverage["traces_validated_against_impl"] = stats.get("words.ops", 0)
         if ok_h:
             nproc = 24 if thorough else 8
-            n_lines, diffs, second = multi_process(res, tier, nproc, res.seed)
-            res.add(core.ob(f"multi-process: {nproc} fresh processes (own hash seeds) agree on {n_lines} renderings / runs; second call in-process agrees",
-                            "impl-property", not diffs and not second and n_lines > 10000, json.dumps(diffs[:3], ensure_ascii=False)))
+            n_lines, diffs, second, order = multi_process(res, tier, nproc, res.seed)
+            res.add(core.ob(f"multi-process: {nproc} fresh processes (own hash seeds) agree on {n_lines} renderings / runs; second call in-process agrees; the reversed word list gives the reversed results",
+                            "impl-property", not diffs and not second and not order and n_lines > 10000, json.dumps((diffs + order)[:3], ensure_ascii=False)[:1500]))
             for d in diffs[:20]:
                 res.violation("two processes give different output for the same input", {"kind": "c01-process-dependence", "case": d,
                               "how": f"asca-harness render-all {tier} {res.seed} in two fresh processes"})
             for l in second[:5]:
                 res.violation("two successive calls in one process differ", {"kind": "c01-second-call", "case": l[:400], "how": "asca-harness render-all"})
+            for l in order[:5]:
+                res.violation("the order in which the words are supplied changes a word's result", {"kind": "c01-word-order", "case": l[:600], "how": "asca-harness render-all"})
             res.evaluations = n_lines * nproc
             res.distinct_nontrivial = n_lines
             res.samples = ["SEG 4 1 4 25408 (qǀ / ɢǀ share this bundle) rendered in every process", "RUN [] ᵐp̪a in every process"]
